@@ -243,6 +243,10 @@ func main() {
 	}{
 		{"{- SP a LF CR}", enum.Bytes("-", " ", "a", "\n", "\r"), maxLen},
 		{"{- SP TAB LF CR >}", enum.Bytes("-", " ", "\t", "\n", "\r", ">"), maxLen - 1},
+		// whole marker pieces as tokens, so that bytes a text tool might treat
+		// specially (byte-order marks, NUL, invalid UTF-8, Unicode line and space
+		// characters, form feed) reach every position around a marker
+		{"{'-- ' ' --' a LF CRLF BOM NUL 0xFF U+2028 NBSP FF UTF16-BOM}", enum.Bytes("-- ", " --", "a", "\n", "\r\n", "\xef\xbb\xbf", "\x00", "\xff", "\u2028", "\u00a0", "\f", "\xff\xfe"), maxLen - 5},
 	}
 	var evals, nontrivial, crlf int64
 	var bounds []string
@@ -277,7 +281,7 @@ func main() {
 	// well-formed archives
 	names := []string{"a", "a b", "-- x --", "é/ü"}
 	bodies := []string{"", "x\n", "x\r\n", "> q\n", "--\n", "-- --x\n", "--  --\n", " -- a --\n"}
-	comments := []string{"", "c\n", "c\r\n", "--\n"}
+	comments := []string{"", "c\n", "c\r\n", "--\n", "\ufeffc\n", "\ufeff\n", "\x00\n"}
 	var archives int64
 	for _, cm := range comments {
 		for nf := 0; nf <= 2; nf++ {
